@@ -1,0 +1,65 @@
+//go:build verif
+
+// Copyright 2026 The Scriggo Authors. All rights reserved.
+// Use of this source code is governed by a BSD-style
+// license that can be found in the LICENSE file.
+
+package runtime
+
+// Verification hooks for property C07 (escaped values decode back to the
+// original). Compiled only with the "verif" build tag. Add-only: every
+// function calls the real, unexported escaper with a recording writer.
+
+// verifC07Recorder is a strWriter that records every Write/WriteString call
+// as one chunk.
+type verifC07Recorder struct {
+	chunks []string
+}
+
+func (r *verifC07Recorder) Write(b []byte) (int, error) {
+	r.chunks = append(r.chunks, string(b))
+	return len(b), nil
+}
+
+func (r *verifC07Recorder) WriteString(s string) (int, error) {
+	r.chunks = append(r.chunks, s)
+	return len(s), nil
+}
+
+// VerifC07Escape calls the escaper named by which on s and returns the
+// sequence of chunks it wrote, the byte count it returned (-1 for the
+// escapers that do not return one) and its error.
+//
+// which is one of "html", "htmlnoent", "attr" (with escapeEntities and
+// quoted), "js", "json", "css", "path" (with quoted), "query".
+func VerifC07Escape(which string, s string, escapeEntities, quoted bool) (chunks []string, n int, err error) {
+	w := &verifC07Recorder{}
+	n = -1
+	switch which {
+	case "html":
+		err = htmlEscape(w, s)
+	case "htmlnoent":
+		err = htmlNoEntitiesEscape(w, s)
+	case "attr":
+		err = attributeEscape(w, s, escapeEntities, quoted)
+	case "js":
+		err = jsStringEscape(w, s)
+	case "json":
+		err = jsonStringEscape(w, s)
+	case "css":
+		err = cssStringEscape(w, s)
+	case "path":
+		n, err = pathEscape(w, s, quoted)
+	case "query":
+		n, err = queryEscape(w, s)
+	default:
+		panic("verif: unknown escaper " + which)
+	}
+	return w.chunks, n, err
+}
+
+// VerifC07PrefixWithSpace calls prefixWithSpace.
+func VerifC07PrefixWithSpace(c byte) bool { return prefixWithSpace(c) }
+
+// VerifC07IsHexDigit calls isHexDigit.
+func VerifC07IsHexDigit(c byte) bool { return isHexDigit(c) }
